@@ -97,11 +97,9 @@ class Run(object):
         self.wait = 'go'
         self.fallback = fallback
         self.timed = {int(k): v for k, v in (timed or {}).items()}
-        self.replay = None
-        if replay is not None:
-            self.replay = {}
-            for (tk, ph, e) in replay:
-                self.replay.setdefault((int(tk), ph), []).append(list(e))
+        # replay: ordered list of [loop iteration, phase, command]; exact when nothing else is injected, otherwise
+        # the remaining commands keep their order and batches (loose replay)
+        self.replay = None if replay is None else [[int(t), ph, list(e)] for (t, ph, e) in replay]
         self.ev = []
         self.fired = []
         self.schedule = []
@@ -138,6 +136,7 @@ class Run(object):
         for i, o in self.conn_ids.items():
             if o is conn:
                 return i
+        self._gc_ids()
         i = 1
         while i in self.conn_ids:
             i += 1
@@ -275,6 +274,7 @@ class Run(object):
             x = self.cid(conn)
             if cl:
                 conn.close()
+            cl = bool(conn.closed())      # logged: is the connection closed when it is given back
             del self.conn_of[c]
             self.nuse[c] += 1
             if mode == 'n':
@@ -410,12 +410,13 @@ class Run(object):
     def tick(self):
         self.ticks += 1
         if self.replay is not None:
-            for e in self.replay.get((self.ticks, 'T'), []):
-                self.fire(e, 'T')
-            return
+            while self.replay and self.replay[0][1] == 'T' and self.replay[0][0] == self.ticks:
+                self.fire(self.replay.pop(0)[2], 'T')
         for e in self.timed.pop(self.ticks, []):
             if self.fire(list(e), 'T'):
                 self.timed_fired.append((self.ticks, list(e)))
+        if self.replay is not None:
+            return
         if self.tick_chooser is not None and self.ticks > 1:
             e = self.tick_chooser(self)
             if e is not None:
@@ -434,11 +435,16 @@ class Run(object):
             self.dirty = False
         fired = False
         if self.replay is not None:
-            for e in self.replay.get((self.ticks, 'Q'), []):
-                if self.fire(e, 'Q'):
-                    fired = True
-            return fired
-        if self.chooser is not None and not self.exhausted:
+            while self.replay and not fired:
+                head = self.replay[0][:2]
+                while self.replay and self.replay[0][:2] == head:
+                    if self.fire(self.replay.pop(0)[2], 'Q'):
+                        fired = True
+            if fired:
+                return True
+        if self.replay is not None:
+            pass
+        elif self.chooser is not None and not self.exhausted:
             while True:
                 e = self.chooser(self, fired)
                 if e is None:
